@@ -16,6 +16,7 @@ type c10Source struct {
 	mu        sync.Mutex
 	reads     int
 	faultRead int // index of the Read call that fails (-1 never)
+	short     bool // Reads deliver at most 100 bytes per call (io.Reader allows short reads)
 	inCopy    int // ghost: copies of the watched file in progress
 	maxInCopy int
 	watch     string
@@ -58,6 +59,9 @@ func (f *c10SrcFile) Read(p []byte) (int, error) {
 	s.mu.Unlock()
 	if i == s.faultRead {
 		return 0, c10ErrRead
+	}
+	if s.short && len(p) > 100 {
+		p = p[:100]
 	}
 	return f.File.Read(p)
 }
@@ -148,6 +152,10 @@ func VerifC10Seq() {
 	verifAssert(src.Chmod("d/f", permF) == nil, "Chmod d/f")
 	verifAssert(hackpadfs.WriteFullFile(src, "g", dataG, 0644) == nil, "WriteFullFile g")
 	counting := &c10Source{fs: src, opens: map[string]int{}, faultRead: -1}
+	if verifChoice("source-reads", 2) == 1 {
+		counting.short = true
+		verifTag("source", "short reads")
+	}
 	storeMem, err := mem.NewFS()
 	verifAssert(err == nil, "NewFS")
 	retainF := verifBool("retain.f")
